@@ -417,6 +417,24 @@ class CallerEnvEngine:
                 yield s2
 
 
+def _reentrant_library_use():
+    """What a re-entrant user callback does: ordinary, unrelated library calls while an outer call is in progress."""
+    from grid.angular import AngularGrid
+    from grid.basegrid import Grid
+    from grid.coulomb import coulomb_gaussian_s
+    from grid.rtransform import BeckeRTransform
+
+    AngularGrid(degree=5)
+    BeckeRTransform(0.1, 1.2).transform(np.linspace(-0.5, 0.5, 5))
+    coulomb_gaussian_s(np.array([0.0, 0.5, 2.0]), 1.1)
+    g = Grid(np.linspace(0, 1, 6).reshape(3, 2), np.ones(3))
+    g.integrate(np.ones(3))
+    g.get_localgrid(np.zeros(2), 0.7)
+
+
+SimCallback.side_effect = staticmethod(_reentrant_library_use)
+
+
 def make_engine():
     procstate.snapshot()
     return CallerEnvEngine()
